@@ -61,6 +61,7 @@ type RunSpec struct {
 	Targets  []string // extra target package paths
 	TargetPrefixes []string
 	ArbWide  bool
+	Stubs    []string
 	Permute  bool
 	WriteMon bool
 	Unwind   int
@@ -176,6 +177,9 @@ func runCheck(p *Prop, tier string, seed int64) int {
 			e.TargetPaths[t] = true
 		}
 		e.TargetPrefixes = rs.TargetPrefixes
+		for _, st := range rs.Stubs {
+			e.EnableStubs(st)
+		}
 		for _, t := range rs.Transparent {
 			e.Transparent[t] = true
 		}
